@@ -89,7 +89,7 @@ impl EntryTrait for IndexEntry {
 
     /// Size of the file, if it is a file. None for directories and symlinks.
     fn size(&self) -> Option<u64> {
-        Some(self.addrs.iter().map(|a| a.len).sum())
+        Some(self.addrs.iter().fold(0u64, |s, a| s.saturating_add(a.len)))
     }
 
     /// Target of the symlink, if this is a symlink.
